@@ -60,6 +60,14 @@ def special_sequences(rng, maxn):
         s = list("E" * comp[0] + "K" * comp[1] + "G" * comp[2])
         rng.shuffle(s)
         out.append("".join(s))
+    # no neutral residue, very few residues of one sign (the minority block must slide through all positions)
+    for big, small in ((16, 1), (14, 2), (26, 3), (12, 1)):
+        for a, b in (("R", "E"), ("D", "K")):
+            s = list(a * big + b * small)
+            rng.shuffle(s)
+            out.append("".join(s))
+            out.append(a * (big // 2) + b * small + a * (big - big // 2))
+    out.append("KKKKEEEE")
     out.append("K" + "E" * 18 + "G")
     out.append("E" * 9 + "K" + "E" * 9 + "G")
     out += ["Q" * 190 + "K" + "N" * 9, "S" * 100 + "E" + "G" * 180 + "K" + "Q" * 99]
